@@ -476,6 +476,7 @@ func runC11(c *Ctx) {
 	c11PerTableState(c)
 	c11MethodArgMask(c)
 	c11FieldOffsets(c)
+	c11ScopeBlockLookup(c)
 }
 
 // C11.R4: every Parser field that is written while a table is parsed is
@@ -815,4 +816,79 @@ func c11FieldOffsets(c *Ctx) {
 		}
 	}
 	c.check(bad == "", "C11.R6", key, "fieldElement.offset is a loop variable that starts at 0 and only grows by parsed package lengths", bad, g.posOf(offN))
+}
+
+// C11.R7: both resolve passes (mergeScopeDirectives, relocateNamedObjects) move
+// objects into the *scope block* of the named object they found by name. Where
+// that block sits among the target's arguments depends on the opcode (after the
+// name for Device, after four arguments for Processor, ...), so it is found by
+// scanning the target's children for the scope-block opcode; a fixed argument
+// position is right for some opcodes only. Checked in both passes: the object
+// whose opcode is compared with pOpIntScopeBlock and that then becomes the new
+// parent comes from a walk over the target's sibling chain.
+func c11ScopeBlockLookup(c *Ctx) {
+	m := c.K
+	const aml = "device/acpi/aml"
+	c.floor("C11.R7", 2)
+	objectAt := m.lookupMethod(aml, "ObjectTree", "ObjectAt")
+	opcodeF, nextF, firstF := m.fieldOf(aml, "Object", "opcode"), m.fieldOf(aml, "Object", "nextSiblingIndex"), m.fieldOf(aml, "Object", "firstArgIndex")
+	scopeBlk := m.lookupConst(aml, "pOpIntScopeBlock")
+	if objectAt == nil || opcodeF == nil || nextF == nil || firstF == nil || scopeBlk == nil {
+		c.unresolved("C11.R7", "ObjectTree.ObjectAt / Object.opcode / nextSiblingIndex / firstArgIndex / pOpIntScopeBlock")
+		return
+	}
+	sb, _ := constUint64(scopeBlk.Value)
+	for _, name := range []string{"mergeScopeDirectives", "relocateNamedObjects"} {
+		fn := m.lookupMethod(aml, "Parser", name)
+		if fn == nil {
+			c.unresolved("C11.R7", "Parser."+name)
+			continue
+		}
+		key := "scope-block-lookup " + m.fnName(fn)
+		g := newIG(m, fn, nil)
+		// tests `X.opcode == pOpIntScopeBlock` on the side where X is taken as the block
+		nscan, bad := 0, ""
+		where := m.pos(fn.Pos())
+		for _, f := range g.AllEdgeFacts() {
+			if f.Y == nil || f.Op != token.EQL {
+				continue
+			}
+			k, isK := constUint64(f.Y)
+			b, fl, okF := loadedField(f.X)
+			if !isK || k != sb || !okF || fl != opcodeF {
+				continue
+			}
+			// where does the object come from?
+			call, isCall := stripConv(b).(*ssa.Call)
+			if !isCall {
+				continue // (a test of an object the function was given: the target itself)
+			}
+			cal := m.callee(call.Common())
+			switch {
+			case cal == objectAt:
+				idx := stripConv(call.Common().Args[1])
+				phi, isPhi := idx.(*ssa.Phi)
+				walks := false
+				if isPhi {
+					for _, e := range phi.Edges {
+						if _, f2, ok := loadedField(e); ok && (f2 == nextF || f2 == firstF) {
+							walks = true
+						}
+					}
+				}
+				if walks {
+					nscan++
+				}
+			case cal != nil && cal.Name() == "ArgAt":
+				if _, isC := constUint64(call.Common().Args[len(call.Common().Args)-1]); isC {
+					bad = "the scope block of the named target is taken from a fixed argument position: right for Device and ThermalZone, wrong for Processor, PowerResource and others (their objects are rejected or attached to the wrong node)"
+					where = g.posOf(f.Edge.From)
+				}
+			}
+		}
+		if nscan == 0 && bad == "" {
+			bad = "no scan of the target's children for its scope block found (rule shape lost)"
+		}
+		c.check(bad == "", "C11.R7", key, fmt.Sprintf("%d scan(s) of the target's sibling chain for the scope-block opcode", nscan), bad, where)
+	}
 }
